@@ -979,6 +979,14 @@ class _Idioms(ast.NodeTransformer):
         one the repository itself uses), so that rules and interpreters know a single form"""
         kw = {k.arg: k.value for k in n.keywords if k.arg}
         mod, _, name = f.rpartition(".")
+        # dict(a=1, b=2)  ->  {'a': 1, 'b': 2};  dict(base, a=1)  ->  {**base, 'a': 1}
+        if f == "dict" and len(n.args) <= 1 and all(k.arg for k in n.keywords) and (n.args or n.keywords) and \
+                not any(isinstance(a, ast.Starred) for a in n.args):
+            keys = ([None] if n.args else []) + [ast.Constant(value=k.arg) for k in n.keywords]
+            vals = (list(n.args) if n.args else []) + [k.value for k in n.keywords]
+            if not n.args or isinstance(n.args[0], (ast.Name, ast.Dict, ast.Attribute)):
+                self.applied.append("dict-call")
+                return ast.Dict(keys=keys, values=vals)
         # np.reshape(a, s, order=..)  ->  a.reshape(s, order=..)
         if mod in self.NP and name == "reshape" and len(n.args) == 2 and set(kw) <= {"order"}:
             self.applied.append("np.reshape")
@@ -1148,6 +1156,24 @@ class _Idioms(ast.NodeTransformer):
                 merged.append(x)
         self.applied.append("str-concat")
         return ast.fix_missing_locations(ast.copy_location(ast.JoinedStr(values=merged), n))
+
+    def visit_Dict(self, n):
+        self.generic_visit(n)
+        # {**{'a': 1}, 'b': 2}  ->  {'a': 1, 'b': 2}   (later keys win in both forms; duplicates are left alone)
+        if any(k is None and isinstance(v, ast.Dict) for k, v in zip(n.keys, n.values)):
+            keys, vals = [], []
+            for k, v in zip(n.keys, n.values):
+                if k is None and isinstance(v, ast.Dict):
+                    keys.extend(v.keys)
+                    vals.extend(v.values)
+                else:
+                    keys.append(k)
+                    vals.append(v)
+            consts = [k.value for k in keys if isinstance(k, ast.Constant)]
+            if len(consts) == len(set(consts)):
+                self.applied.append("dict-splat-literal")
+                n.keys, n.values = keys, vals
+        return n
 
     def visit_Attribute(self, n):
         self.generic_visit(n)
@@ -1424,6 +1450,34 @@ def io_comprehensions_to_loops(tree):
     return applied
 
 
+def update_to_stores(tree):
+    """`d.update({'a': x, 'b': y})` as a statement  ->  `d['a'] = x; d['b'] = y` (constant keys, in order)"""
+    applied = []
+    for x in ast.walk(tree):
+        for fld in ("body", "orelse", "finalbody"):
+            blk = getattr(x, fld, None)
+            if not (isinstance(blk, list) and blk and isinstance(blk[0], ast.stmt)):
+                continue
+            i = 0
+            while i < len(blk):
+                s = blk[i]
+                c = s.value if isinstance(s, ast.Expr) else None
+                if isinstance(c, ast.Call) and isinstance(c.func, ast.Attribute) and c.func.attr == "update" and \
+                        isinstance(c.func.value, ast.Name) and len(c.args) == 1 and not c.keywords and \
+                        isinstance(c.args[0], ast.Dict) and c.args[0].keys and \
+                        all(isinstance(k, ast.Constant) for k in c.args[0].keys):
+                    new = []
+                    for k, v in zip(c.args[0].keys, c.args[0].values):
+                        tgt = ast.Subscript(value=ast.Name(id=c.func.value.id, ctx=ast.Load()), slice=k, ctx=ast.Store())
+                        new.append(ast.fix_missing_locations(ast.copy_location(ast.Assign(targets=[tgt], value=v), s)))
+                    blk[i:i + 1] = new
+                    applied.append("update-literal")
+                    i += len(new)
+                    continue
+                i += 1
+    return applied
+
+
 def extend_to_appends(tree):
     """`xs.extend([a, b])` as a statement  ->  `xs.append(a); xs.append(b)` (a literal list of call-free or single
     elements: the same elements in the same order)"""
@@ -1505,7 +1559,126 @@ def normalise_idioms(tree):
     t = _Idioms()
     t.visit(tree)
     ast.fix_missing_locations(tree)
-    return t.applied + continue_guards_to_ifs(tree) + extend_to_appends(tree) + drop_dead_containers(tree) + io_comprehensions_to_loops(tree) + loops_to_comprehensions(tree)
+    return t.applied + continue_guards_to_ifs(tree) + extend_to_appends(tree) + update_to_stores(tree) + drop_dead_containers(tree) + io_comprehensions_to_loops(tree) + loops_to_comprehensions(tree)
+
+
+def _literal(e):
+    if isinstance(e, ast.Constant) and isinstance(e.value, (int, float, str, bytes)) and not isinstance(e.value, bool):
+        return True
+    if isinstance(e, ast.UnaryOp) and isinstance(e.op, ast.USub) and _literal(e.operand):
+        return True
+    if isinstance(e, ast.Tuple) and e.elts and all(_literal(x) for x in e.elts):
+        return True
+    return False
+
+
+EXTERNAL_CONSTS = {}     # modname -> {NAME: literal node}, filled by model.Program before the modules are built
+
+
+def _new_constants(relpath, tree):
+    ref = alpha.load_ref()
+    if relpath not in (ref.get("__globals__") or {}):
+        return {}
+    known = set(ref["__globals__"][relpath])
+    stores = {}
+    for x in ast.walk(tree):
+        if isinstance(x, ast.Name) and isinstance(x.ctx, (ast.Store, ast.Del)):
+            stores[x.id] = stores.get(x.id, 0) + 1
+        elif isinstance(x, ast.Global):
+            for nm in x.names:
+                stores[nm] = stores.get(nm, 0) + 2
+        elif isinstance(x, (ast.arg,)):
+            stores[x.arg] = stores.get(x.arg, 0) + 1
+        elif isinstance(x, ast.ExceptHandler) and x.name:
+            stores[x.name] = stores.get(x.name, 0) + 1
+    consts = {}
+    for st in list(tree.body):
+        if isinstance(st, ast.Assign) and len(st.targets) == 1 and isinstance(st.targets[0], ast.Name) and _literal(st.value):
+            nm = st.targets[0].id
+            if nm not in known and stores.get(nm, 0) == 1 and nm.upper() == nm:
+                consts[nm] = st
+    return consts
+
+
+def collect_new_constants(relpath, modname, tree):
+    c = _new_constants(relpath, tree)
+    if c:
+        EXTERNAL_CONSTS[modname] = {k: v.value for k, v in c.items()}
+
+
+def inline_imported_constants(relpath, tree):
+    """`from pkg.mod import CONST` of a new named constant of another module of the package: read as its literal"""
+    applied = []
+    for st in list(tree.body):
+        if not isinstance(st, ast.ImportFrom) or not st.module:
+            continue
+        mods = [m for m in EXTERNAL_CONSTS if m == st.module or m.endswith("." + st.module.lstrip("."))]
+        if st.level:
+            base = relpath[:-3].replace("/", ".").split(".")
+            base = base[:len(base) - st.level]
+            mods = [m for m in EXTERNAL_CONSTS if m == ".".join(base + [st.module])]
+        if len(mods) != 1:
+            continue
+        table = EXTERNAL_CONSTS[mods[0]]
+        keep = []
+        for a in st.names:
+            if a.name in table:
+                local = a.asname or a.name
+                if any(isinstance(x, ast.Name) and x.id == local and isinstance(x.ctx, (ast.Store, ast.Del))
+                       for x in ast.walk(tree)):
+                    keep.append(a)
+                    continue
+                for x in tree.body:
+                    if x is not st:
+                        _SubstLoad(local, table[a.name]).visit(x)
+                applied.append(("<module>", "inline-imported-const", local))
+            else:
+                keep.append(a)
+        if keep:
+            st.names = keep
+        else:
+            tree.body.remove(st)
+    ast.fix_missing_locations(tree)
+    return applied
+
+
+def inline_new_constants(relpath, tree):
+    """module-level `NAME = <literal>` that the reference module does not have, bound once and never re-bound, is a
+    named constant: every read of NAME in the module's functions is the literal (Replace Magic Number, undone)"""
+    ref = alpha.load_ref()
+    known = set((ref.get("__globals__") or {}).get(relpath) or ())
+    if relpath not in (ref.get("__globals__") or {}):
+        return []
+    pre = inline_imported_constants(relpath, tree)
+    stores = {}
+    for x in ast.walk(tree):
+        if isinstance(x, ast.Name) and isinstance(x.ctx, (ast.Store, ast.Del)):
+            stores[x.id] = stores.get(x.id, 0) + 1
+        elif isinstance(x, ast.Global):
+            for nm in x.names:
+                stores[nm] = stores.get(nm, 0) + 2
+        elif isinstance(x, (ast.arg,)):
+            stores[x.arg] = stores.get(x.arg, 0) + 1
+        elif isinstance(x, ast.ExceptHandler) and x.name:
+            stores[x.name] = stores.get(x.name, 0) + 1
+    consts = {}
+    for st in list(tree.body):
+        if isinstance(st, ast.Assign) and len(st.targets) == 1 and isinstance(st.targets[0], ast.Name) and _literal(st.value):
+            nm = st.targets[0].id
+            if nm not in known and stores.get(nm, 0) == 1 and nm.upper() == nm:
+                consts[nm] = st
+    if not consts:
+        return pre
+    applied = list(pre)
+    for nm, st in consts.items():
+        for x in tree.body:
+            if x is st:
+                continue
+            _SubstLoad(nm, st.value).visit(x)
+        tree.body.remove(st)
+        applied.append(("<module>", "inline-const", nm))
+    ast.fix_missing_locations(tree)
+    return applied
 
 
 # ------------------------------------------------------------------------------------------------ entry point
@@ -1625,6 +1798,14 @@ def coalesce_aliases(fn, cands):
     return applied
 
 
+def _parent_of(root, node):
+    for p in ast.walk(root):
+        for c in ast.iter_child_nodes(p):
+            if c is node:
+                return p
+    return None
+
+
 def untuple_new_locals(fn, cands):
     """tuple bindings of locals the reference function does not have are taken apart so that the Inline Variable pass
     can remove them:  `a, b = x, y` -> `a = x; b = y`;  `a, b = v` -> `a = v[0]; b = v[1]`;  `for a, b in it:` ->
@@ -1635,7 +1816,42 @@ def untuple_new_locals(fn, cands):
     fresh = [0]
 
     def new_names(ts):
-        return all(isinstance(t, ast.Name) and t.id in cands and counts.get(t.id, 0) == 1 for t in ts)
+        return all(isinstance(t, ast.Name) and (t.id in cands or t.id.startswith("_ut")) and
+                   counts.get(t.id, 0 if not t.id.startswith("_ut") else 1) == 1 for t in ts)
+
+    def loop_local(t):
+        """a new name bound only as a loop target, every read of it inside a loop that binds it"""
+        if not (isinstance(t, ast.Name) and t.id in cands):
+            return False
+        binders = [n for n in ast.walk(fn) if isinstance(n, ast.For) and
+                   any(isinstance(x, ast.Name) and x.id == t.id for x in ast.walk(n.target))]
+        if len(binders) != _bind_counts(fn).get(t.id, 0):
+            return False
+        covered = {id(x) for b in binders for x in ast.walk(b)}
+        return all(id(x) in covered for x in ast.walk(fn) if isinstance(x, ast.Name) and x.id == t.id)
+
+    def comp_len(x):
+        """N when x is a local bound once to `[... for _ in range(N)]` (no filter) and never resized"""
+        if not isinstance(x, ast.Name) or counts.get(x.id, 0) != 1:
+            return None
+        val = None
+        for n in ast.walk(fn):
+            if isinstance(n, ast.Assign) and len(n.targets) == 1 and isinstance(n.targets[0], ast.Name) and n.targets[0].id == x.id:
+                val = n.value
+            if isinstance(n, ast.Call) and isinstance(n.func, ast.Attribute) and isinstance(n.func.value, ast.Name) and \
+                    n.func.value.id == x.id and n.func.attr in ("append", "extend", "insert", "pop", "remove", "clear"):
+                return None
+        if isinstance(val, ast.ListComp) and len(val.generators) == 1 and not val.generators[0].ifs and \
+                isinstance(val.generators[0].iter, ast.Call) and _call_name(val.generators[0].iter) == "range" and \
+                len(val.generators[0].iter.args) == 1:
+            return copy.deepcopy(val.generators[0].iter.args[0])
+        return None
+
+    def length_of(a):
+        n = comp_len(a)
+        if n is not None:
+            return n
+        return ast.Call(func=ast.Name(id="len", ctx=ast.Load()), args=[copy.deepcopy(a)], keywords=[])
 
     for x in ast.walk(fn):
         for fld in ("body", "orelse", "finalbody"):
@@ -1689,6 +1905,48 @@ def untuple_new_locals(fn, cands):
                             applied.append(",".join(t.id for t in e.elts))
                             s.target.elts[k] = ast.copy_location(ast.Name(id=name, ctx=ast.Store()), e)
                             ast.fix_missing_locations(s)
+                if isinstance(s, ast.For) and isinstance(s.target, (ast.Tuple, ast.List)) and len(s.target.elts) == 2 and \
+                        isinstance(s.iter, ast.Call) and _call_name(s.iter) == "enumerate" and len(s.iter.args) == 1 and \
+                        not s.iter.keywords and isinstance(s.target.elts[0], ast.Name) and \
+                        (new_names([s.target.elts[1]]) or loop_local(s.target.elts[1])) and not s.orelse:
+                    inner = s.iter.args[0]
+                    iv, xv = s.target.elts[0].id, s.target.elts[1].id
+                    if _projectable(inner):
+                        # for i, x in enumerate(X)  ->  for i in range(len(X)) with x read as X[i]
+                        v = ast.Subscript(value=copy.deepcopy(inner), slice=ast.Name(id=iv, ctx=ast.Load()), ctx=ast.Load())
+                        for b in s.body:
+                            _SubstLoad(xv, v).visit(b)
+                        s.iter = ast.copy_location(ast.Call(func=ast.Name(id="range", ctx=ast.Load()), args=[length_of(inner)],
+                                                            keywords=[]), s.iter)
+                        s.target = ast.copy_location(ast.Name(id=iv, ctx=ast.Store()), s.target)
+                        applied.append(xv)
+                        ast.fix_missing_locations(s)
+                    elif isinstance(inner, ast.Call) and _call_name(inner) == "zip" and not inner.keywords and \
+                            all(_projectable(a) for a in inner.args):
+                        # for i, t in enumerate(zip(X, Y))  ->  for i in range(min(len(X), len(Y))) with t[k] read as X[i], Y[i]
+                        ok = all(isinstance(p, ast.Subscript) and isinstance(p.slice, ast.Constant)
+                                 for b in s.body for n in ast.walk(b) if isinstance(n, ast.Name) and n.id == xv
+                                 for p in [_parent_of(b, n)])
+                        if ok:
+                            class _Elem(ast.NodeTransformer):
+                                def visit_Subscript(self, n, _xv=xv, _iv=iv, _args=inner.args):
+                                    self.generic_visit(n)
+                                    if isinstance(n.value, ast.Name) and n.value.id == _xv and isinstance(n.slice, ast.Constant) \
+                                            and isinstance(n.slice.value, int) and 0 <= n.slice.value < len(_args):
+                                        return ast.copy_location(ast.Subscript(
+                                            value=copy.deepcopy(_args[n.slice.value]), slice=ast.Name(id=_iv, ctx=ast.Load()),
+                                            ctx=n.ctx), n)
+                                    return n
+                            for b in s.body:
+                                _Elem().visit(b)
+                            lens = [length_of(a) for a in inner.args]
+                            if len({ast.unparse(x) for x in lens}) == 1:
+                                lens = lens[:1]
+                            cnt = lens[0] if len(lens) == 1 else ast.Call(func=ast.Name(id="min", ctx=ast.Load()), args=lens, keywords=[])
+                            s.iter = ast.copy_location(ast.Call(func=ast.Name(id="range", ctx=ast.Load()), args=[cnt], keywords=[]), s.iter)
+                            s.target = ast.copy_location(ast.Name(id=iv, ctx=ast.Store()), s.target)
+                            applied.append(xv)
+                            ast.fix_missing_locations(s)
                 if isinstance(s, ast.Assign):
                     pass
                 elif isinstance(s, ast.For) and isinstance(s.target, (ast.Tuple, ast.List)) and new_names(s.target.elts) \
@@ -1703,8 +1961,9 @@ def untuple_new_locals(fn, cands):
                         for b in s.body:
                             _SubstLoad(t.id, v).visit(b)
                     applied.append(",".join(t.id for t in s.target.elts))
-                    lens = [ast.Call(func=ast.Name(id="len", ctx=ast.Load()), args=[copy.deepcopy(a)], keywords=[])
-                            for a in s.iter.args]
+                    lens = [length_of(a) for a in s.iter.args]
+                    if len({ast.unparse(x) for x in lens}) == 1:
+                        lens = lens[:1]
                     cnt = lens[0] if len(lens) == 1 else ast.Call(func=ast.Name(id="min", ctx=ast.Load()), args=lens, keywords=[])
                     s.iter = ast.copy_location(ast.Call(func=ast.Name(id="range", ctx=ast.Load()), args=[cnt], keywords=[]),
                                                s.iter)
@@ -1724,6 +1983,73 @@ def untuple_new_locals(fn, cands):
                     s.target = ast.copy_location(ast.Name(id=name, ctx=ast.Store()), like)
                     ast.fix_missing_locations(s)
                 i += 1
+    return applied
+
+
+def reuse_loop_names(fn):
+    """a temporary loop index (`_utN`) that ranges over the same `range(E)` as another, disjoint loop of the function
+    takes that loop's variable name (the reference reuses `lv` / `i` in consecutive loops)"""
+    applied = []
+    loops = [n for n in ast.walk(fn) if isinstance(n, ast.For) and isinstance(n.target, ast.Name)]
+    for lp in loops:
+        if not lp.target.id.startswith("_ut"):
+            continue
+        it = ast.unparse(lp.iter)
+        inside = {id(x) for x in ast.walk(lp)}
+        for other in loops:
+            if other is lp or other.target.id.startswith("_ut") or ast.unparse(other.iter) != it:
+                continue
+            v = other.target.id
+            if id(other) in inside or any(x is lp for x in ast.walk(other)):
+                continue
+            if any(isinstance(x, ast.Name) and x.id == v for b in lp.body for x in ast.walk(b)):
+                continue
+            # v must not be read after lp expecting other's last value: conservative — no load of v after lp at all
+            end = getattr(lp, "end_lineno", None)
+            if end is not None and any(isinstance(x, ast.Name) and x.id == v and isinstance(x.ctx, ast.Load) and
+                                       getattr(x, "lineno", 0) > end for x in ast.walk(fn)):
+                continue
+            old = lp.target.id
+            for x in ast.walk(lp):
+                if isinstance(x, ast.Name) and x.id == old:
+                    x.id = v
+            applied.append(f"{old}->{v}")
+            break
+    # second stage: no loop over the same range — take the variable of a disjoint loop at the same nesting depth
+    def depth(node):
+        d, cur = 0, node
+        par = {id(c): p for p in ast.walk(fn) for c in ast.iter_child_nodes(p)}
+        while id(cur) in par:
+            cur = par[id(cur)]
+            if isinstance(cur, (ast.For, ast.While)):
+                d += 1
+        return d
+    for lp in loops:
+        if not lp.target.id.startswith("_ut"):
+            continue
+        inside = {id(x) for x in ast.walk(lp)}
+        enclosing_targets = {o.target.id for o in loops if o is not lp and any(x is lp for x in ast.walk(o))}
+        for other in loops:
+            v = other.target.id
+            if other is lp or v.startswith("_ut") or id(other) in inside or any(x is lp for x in ast.walk(other)) \
+                    or v in enclosing_targets:
+                continue
+            if not (isinstance(other.iter, ast.Call) and _call_name(other.iter) == "range"):
+                continue
+            if any(isinstance(x, ast.Name) and x.id == v for b in lp.body for x in ast.walk(b)):
+                continue
+            end = getattr(lp, "end_lineno", None)
+            if end is not None and any(isinstance(x, ast.Name) and x.id == v and isinstance(x.ctx, ast.Load) and
+                                       getattr(x, "lineno", 0) > end and id(x) not in
+                                       {id(y) for o in loops if o.target.id == v for y in ast.walk(o)}
+                                       for x in ast.walk(fn)):
+                continue
+            old = lp.target.id
+            for x in ast.walk(lp):
+                if isinstance(x, ast.Name) and x.id == old:
+                    x.id = v
+            applied.append(f"{old}->{v}")
+            break
     return applied
 
 
@@ -1748,6 +2074,8 @@ def inline_new_locals(relpath, tree):
             applied.append((q, "untuple", v))
         params, local = alpha.function_locals(fn, g)
         cands = {n for n in local if n not in r["locals"] and n not in r["params"]}
+        for v in reuse_loop_names(fn):
+            applied.append((q, "loop-name", v))
         for v in coalesce_aliases(fn, cands):
             applied.append((q, "alias", v))
         for v in VarInliner(fn, cands).run():
